@@ -22,7 +22,7 @@ type SamRec struct {
 	Flag int     `json:"flag"`
 	Pos  int     `json:"pos"` // 1-based; 0 for unmapped
 	Ops  []SamOp `json:"ops"`
-	Seq  string  `json:"seq"` // "*" allowed on noise records
+	Seq  string  `json:"seq"`  // "*" allowed on noise records
 	Kind string  `json:"kind"` // aligned | unmapped | secondary
 }
 
